@@ -113,6 +113,49 @@ CHECKS: Dict[str, Dict[str, str]] = {
         "and grammar-arity unpackings are counted assumptions; OSError and path-argument handling are outside the property.",
         design="3/C13",
     ),
+    "C03": dict(
+        technique="static analysis: typestate automaton extracted from the parser and builder code (abstract interpretation over "
+        "the control state header-flag x pending-callback), explored exhaustively over grammar-derived line shapes and "
+        "endings; grammar terminals compared as regular languages; append-only / who-may-call lints; decision tables of the "
+        "directive handlers",
+        text="The attribute pipeline is a two-stage buffer; its correctness is a typestate property decided on an automaton that "
+        "is read off the code: every visitor's ordered effects (flush, queue, commit, schema reads, `---`) are extracted by "
+        "abstract interpretation and all sequences of line shapes (empty, blanks, comment, each statement kind with and "
+        "without trailing comment, each directive) x every ending are explored; obligations: a queued attribute is never "
+        "overwritten, never pending at a schema read or `---`, never pending at end of input (this found the last-attribute "
+        "loss, since repaired). Plus: append-only schema lists fed only by the deferred callbacks, visitor children at the "
+        "grammar positions, directive decision tables, composite construction flows, and the line-ending / blank terminals "
+        "as regular languages. The canonical re-rendering round trip is not decided.",
+        note="Trusted: parsimonious visits children before parents, left to right; statement kinds and their identifier/expression "
+        "content are derived from the grammar file.",
+        design="3/C03",
+    ),
+    "C07": dict(
+        technique="static analysis: exception-flow over the call graph rooted at deserialize; guard extraction folded over boundary "
+        "domains; inductive linear-form accounting of the bit offset on every path of read_bits / write_bits",
+        text="(1) Every (class, origin) that can escape deserialize is a SerDesError/ValueError (TypeError only from the explicit "
+        "service-type guards); indexing, struct.unpack and bytes() sites are discharged by dominating bounds checks, format "
+        "sizes and 8-bit element provenance. (2) The array-length, union-tag and both delimiter-header guards are extracted "
+        "and folded over domains containing both sides of each boundary, must dominate the use, and nothing is clamped. "
+        "(3) On every path of read_bits / write_bits the offset advances by exactly bit_length (recursive calls by induction, "
+        "divmod relation), including the out-of-limit paths which return zeros; bounded_subreader advances the parent by "
+        "its argument. (4) No module state. Value-level clauses (fixed point, zero-extension equality) are not decided.",
+        note="Trusted: struct.calcsize for the three formats; recursion depth bounded by type nesting; memory for huge declared lengths.",
+        design="3/C07",
+    ),
+    "C17": dict(
+        technique="static analysis: handler-discipline lints, the C03 typestate automaton extended with line age, regular-language "
+        "test of every grammar terminal for line breaks, dataflow on handler bindings",
+        text="Decides: each Error handler on the propagation path stamps its own file/line and re-raises the same object and the "
+        "setter fills unknown fields only (so the dependency's location wins); in the explored automaton every deferred "
+        "attribute commit on a later line runs inside a handler that re-attributes errors to a line captured by exactly the "
+        "queueing visitors; every grammar terminal that can match a line break is end_of_line or has a visitor advancing the "
+        "counter by the breaks matched, and multi-line statements report their first line; the counter's writers; the "
+        "assertion error's line/path; the print handler passed to X.read is bound to X's path (one known finding: on-demand "
+        "dependency reads reuse the referrer's binding); @print delivers once per path.",
+        note="Trusted: a definition is evaluated once (C09.R4); errors raised mid-statement are stamped with a line inside the statement.",
+        design="3/C17",
+    ),
 }
 
 NOT_APPLICABLE: Dict[str, str] = {}
